@@ -239,6 +239,26 @@ for con_in, con_out in ((None, 0.5), (0.35, 0.5)):
             wit.append({'key': key, 'problems': [f'RamanFiber connector losses ({rf.params.con_in}, {rf.params.con_out}), expected ({want_in}, {want_out})']})
     except Exception as e:
         wit.append({'key': key, 'problems': [f'{type(e).__name__}: {e}'[:300]]})
+# a Raman span that leaves its output connector to the library default, like any other fibre may: known finding F40
+cases += 1
+try:
+    topo = mesh(['A', 'B'], [('A', 'B')], spans={('A', 'B'): [80]})
+    for e in topo['elements']:
+        if e['uid'] == 'fiber (A -> B)-0':
+            e['type'] = 'RamanFiber'
+            e['params'].pop('con_out')
+            e['operational'] = {'temperature': 283, 'raman_pumps': [{'power': 0.2, 'frequency': 205e12, 'propagation_direction': 'counterprop'}]}
+    topo['elements'].append(edfa('booster A', None, {'delta_p': 0.0, 'gain_target': None, 'tilt_target': 0, 'out_voa': None}))
+    topo['connections'] = [c for c in topo['connections'] if not (c['from_node'] == 'roadm A' and c['to_node'] == 'fiber (A -> B)-0')] + \
+        [{'from_node': 'roadm A', 'to_node': 'booster A'}, {'from_node': 'booster A', 'to_node': 'fiber (A -> B)-0'}]
+    net, eq = design(topo, equipment())
+    rf = next(n for n in net.nodes() if isinstance(n, RamanFiber))
+    if rf.params.con_out is None:
+        wit.append({'key': 'raman-fibre-default-output-connector', 'problems': ['con_out left undefined after the design']})
+except TypeError as e:
+    wit.append({'key': 'raman-fibre-without-con_out-cannot-be-loaded', 'problems': [f'the topology cannot be loaded: TypeError: {e}'[:200]]})
+except Exception as e:
+    wit.append({'key': 'raman-fibre-default-output-connector', 'problems': [f'{type(e).__name__}: {e}'[:300]]})
 # the same Raman span behind an amplifier that is left to the design (no delta_p): known finding F24
 cases += 1
 try:
@@ -292,6 +312,20 @@ for name in (['line2', 'ring3'] if a.tier == 'quick' else ['line2', 'line3', 'ri
                 wit.append({'key': key, 'problems': prob[:5]})
         except Exception as e:
             wit.append({'key': key, 'problems': [f'{type(e).__name__}: {e}'[:300]]})
+    # no design_bands on the ROADMs: they default to the two SI sections of the library (the L section set to what its amplifiers cover)
+    cases += 1
+    key = f'{name}:[80]:multiband by default (two SI sections)'
+    try:
+        eq = equipment('eqpt_config_multiband.json')
+        eq['SI']['lband'].f_min, eq['SI']['lband'].f_max = 186.6e12, 190.0e12
+        net, eq = design(mesh(sites, links, spans={l: [80] for l in links}), eq)
+        prob = [f'{n.uid}: single-band amplifier in a design whose default is two bands' for n in net.nodes() if isinstance(n, Edfa)] + \
+            [f'{n.uid}: followed by {type(next(net.successors(n))).__name__} without amplifier' for n in net.nodes()
+             if isinstance(n, Fiber) and isinstance(next(net.successors(n)), (Fiber, Roadm))]
+        if prob:
+            wit.append({'key': key, 'problems': prob[:5]})
+    except Exception as e:
+        wit.append({'key': key, 'problems': [f'auto-design did not complete: {type(e).__name__}: {e}'[:300]]})
     # the same ROADMs with an operator-placed single-band in-line amplifier on every line: those lines stay single-band lines
     cases += 1
     key = f'{name}:[40, 60]:multiband ROADMs, single-band in-line amplifier given'
